@@ -1427,6 +1427,11 @@ class Executor:
                 self.raise_py(ValueError)
             self.assign_target(t.elts[0], VInt(v.lo), env)
             self.assign_target(t.elts[1], VInt(v.hi), env)
+        elif isinstance(t, (ast.Tuple, ast.List)) and isinstance(v, VItem) and 'unpack' in self.hooks:
+            # an opaque item that stands for a tuple (e.g. a dict entry): the contract supplies its components
+            items = self.hooks['unpack'](self, v, len(t.elts))
+            for e, i in zip(t.elts, items):
+                self.assign_target(e, i, env)
         elif isinstance(t, (ast.Tuple, ast.List)):
             if isinstance(v, VSeq):
                 raise OutOfSubset('unpacking a symbolic-length sequence')
